@@ -1,14 +1,43 @@
 ENGINES = [
-    {"name": "E1 string explorer", "path": "mc/enum_strings.py", "serves_properties": ["C16"],
-     "kind_free_text": "bounded-exhaustive enumeration of symbol/tuple strings, prefix tree as transition system, sharded over 16 processes"},
+    {"name": "E1 string explorer", "path": "mc/enum_strings.py",
+     "serves_properties": ["C01", "C02", "C08", "C13", "C16", "C18"],
+     "kind_free_text": "bounded-exhaustive enumeration of token strings: the prefix tree over an alphabet is the transition system (state = prefix, transition = append a token); sharded over 16 long-lived worker processes; parametric families enumerated completely"},
+    {"name": "E3 history explorer", "path": "mc/hist_explorer.py", "serves_properties": ["C08"],
+     "kind_free_text": "generic walker over all module-level mutable state of the selfies package: identity-preserving restore and structural fingerprint (explicit-state BFS over API-call histories)"},
 ]
-NOTES = "All checks: ./check <id> --tier quick|thorough (env VERIF_SEED, VERIF_TIER honoured). Evidence is rewritten by every run. known_findings.json lists genuine defects recorded instead of repaired."
+NOTES = ("All checks: ./check <id> --tier quick|thorough (env VERIF_SEED, VERIF_TIER honoured). Evidence is rewritten "
+         "by every run. known_findings.json lists genuine defects recorded instead of repaired (status known) and "
+         "repaired by fix: commits in /repo (status fixed, suppress nothing).")
+
+def _c(id, engine, technique, text, note, ref=None):
+    return {"id": id, "engine": engine, "technique": technique, "text": text, "note": note,
+            "design_ref": ref or ("DESIGN.md section 2 " + id)}
+
 CHECKS = [
-    {"id": "C16", "engine": "E1 string explorer",
-     "technique": "bounded-exhaustive enumeration of all index-symbol tuples and all n < 16^4 against an independent positional code, on the real functions and through encoder/decoder",
-     "text": "Every n < 16^4 (16^5 thorough) and every tuple of <= 3 (4) digit tokens over the 16 index symbols, two non-index symbols and 'missing' is evaluated on the implementation and compared with an independent base-16 code; through the public API every tuple is placed behind [RingL]/[BranchL] and the realised ring target / branch length is read back from the output by an independent SMILES reader, and every ring distance / branch length up to 4099 is encoded and decoded back. This is the whole domain the property quantifies over below 16^3, so exhaustive enumeration is the right level.",
-     "design_ref": "DESIGN.md §2 C16",
-     "note": "Trusted: the independent reader (mc/oracles/smiread.py) and the 16-entry table transcribed from docs/source/derivation.rst. Quick tier restricts 3-symbol API tuples with Q >= 512 and encoder distances > 600 to a fixed sub-grid (stated in evidence); thorough covers all."},
+    _c("C01", "E1 string explorer",
+       "bounded-exhaustive enumeration of SELFIES strings (all strings <= L over valence-stressing alphabets x 6 tables; whole robust alphabet <= 3/4 symbols with RDKit; complete parametric families up to 130 rings / depth 60 / 50 fragments), every output re-read by an independent SMILES reader",
+       "Coverage statement: no string of <= L symbols over the listed alphabets under the listed tables, and no member of the listed families, decodes to a syntactically invalid or over-valent SMILES. The decoder is a compositional recursive-descent translator, so short strings reach every rule x state combination; the unbounded dimensions (ring count, rings open at once, nesting, fragments) are covered by complete families.",
+       "Trusted: independent reader mc/oracles/smiread.py, capacity lookup from get_semantic_constraints() by an independent key builder, RDKit for the one clause that names a sanitizer. Known finding: ring label %100 for the 100th ring bond."),
+    _c("C02", "E1 string explorer",
+       "bounded-exhaustive enumeration of SELFIES strings with the decoder compared, string by string, against an independent executable model of docs/source/derivation.rst (model traces validated against the implementation)",
+       "Every string of <= L symbols over five alphabets (core, stereo, state, outside-grammar, deep) under six tables plus every index-digit tuple in templated contexts is decoded by the implementation and by the reference model: accept/reject must coincide and atoms, bonds, orders, stereo marks and written neighbour order must be equal. Evidence carries the rule x state table actually hit.",
+       "Trusted: reference model mc/oracles/refmodel.py (decisions frozen where the docs are silent: DESIGN.md section 4.2) and the independent reader. Ring numbering / spelling choices of the writer are not compared."),
+    _c("C08", "E1 string explorer",
+       "bounded-exhaustive enumeration of arbitrary text (all concatenations of <= 4/5 pieces from two 30/24-piece alphabets of malformed and well-formed material x 4 flag combinations) and complete depth/length/fragment families; outcome classes checked, watchdog for termination",
+       "No enumerated input makes decoder raise anything but DecoderError, return a wrong type, hang beyond the watchdog, or change the constraint state. Depth 1..1200 is enumerated completely because the recursion limit is a numeric cliff.",
+       "Non-termination is only observable as a watchdog expiry (20 s + 1 s / 100 chars). Constraint state observed via the public getter after every call and a structural fingerprint of selfies.bond_constraints per shard."),
+    _c("C13", "E1 string explorer",
+       "bounded-exhaustive enumeration: every string <= 5/6 symbols x every subset of [nop] insertion positions (2^(n+1) variants) + doubled [nop] + padding round trip, differential against the unpadded outcome",
+       "For every enumerated string and every set of insertion positions the decoder's outcome is identical; the padding path of selfies_to_encoding/encoding_to_selfies is covered for every string.",
+       "Differential oracle (implementation on the unpadded string). Exceptions compared by class."),
+    _c("C16", "E1 string explorer",
+       "bounded-exhaustive enumeration of all index-symbol tuples and all n < 16^4 against an independent positional code, on the real functions and through encoder/decoder",
+       "Every n < 16^4 (16^5 thorough) and every tuple of <= 3 (4) digit tokens over the 16 index symbols, two non-index symbols and 'missing' is evaluated on the implementation and compared with an independent base-16 code; through the public API every tuple is placed behind [RingL]/[BranchL] and the realised ring target / branch length is read back from the output by an independent SMILES reader, and every ring distance / branch length up to 4099 is encoded and decoded back. This is the whole domain the property quantifies over below 16^3, so exhaustive enumeration is the right level.",
+       "Trusted: the independent reader and the 16-entry table transcribed from docs/source/derivation.rst. Quick tier restricts 3-symbol API tuples with Q >= 512 and encoder distances > 600 to a fixed sub-grid (stated in evidence); thorough covers all."),
+    _c("C18", "E1 string explorer",
+       "bounded-exhaustive enumeration of mixed modern/legacy strings (<= 4/5 symbols over two 16/17-symbol alphabets, full L,M grid, 12600-spelling legacy atom grid) against an independent moderniser and the reference model",
+       "For every enumerated string: compatible=True equals decoding the independently modernised string, modern-only strings are unaffected by the flag, and without the flag the reference model on the raw string decides accept/reject and the molecule.",
+       "Trusted: mc/oracles/legacy.py written from CHANGELOG v2.0.0; clause (a) is differential against the implementation on the modernised string."),
 ]
-_PENDING = "check not built yet in this revision of /verif (planned: see DESIGN.md §2); not claimed until its command exists"
+_PENDING = "check not built yet in this revision of /verif (planned: see DESIGN.md section 2); not claimed until its command exists"
 NOT_APPLICABLE = [{"property_id": "C%02d" % i, "reason": _PENDING} for i in range(1, 20) if "C%02d" % i not in {c["id"] for c in CHECKS}]
